@@ -1075,6 +1075,62 @@ def rule_dep(ctx):
     return dep_insts(ctx, "C05", ["reamber.bms.BMSMap.BMSMap.write"], skip_groups=())
 
 
+def rule_r12(ctx) -> List[R.Inst]:
+    """measure-length channel (02): the writer emits metronome / K, the reader takes value * K, with one and the same K — the two are
+    inverse only then (every bundled chart is in 4/4, where K / K and K * K / K cannot be told apart from their inverses)"""
+    M = ctx.M
+    rid = "C05.R12"
+    wfn = _write_notes_fn(ctx)
+    wfile = M.mods[wfn.mod].rel
+    rfn = M.fn(f"{BMSMAP}._read_notes")
+    insts = []
+    # writer: the value of the TIME_SIG rows
+    wexpr = None
+    for n in ast.walk(wfn.node):
+        if isinstance(n, ast.Tuple) and len(n.elts) == 3 and "TIME_SIG" in unparse(n.elts[1]):
+            v = n.elts[2]
+            for x in ast.walk(v):
+                if isinstance(x, ast.FormattedValue):
+                    wexpr = x.value
+            if wexpr is None and isinstance(v, ast.Call) and v.args:
+                wexpr = v.args[0]
+    # reader: metronome = <value> * K under the TIME_SIG channel test
+    rexpr = None
+    for n in ast.walk(rfn.node):
+        if isinstance(n, ast.If) and "TIME_SIG" in unparse(n.test):
+            for b_ in n.body:
+                for st in ast.walk(b_):
+                    if rexpr is None and isinstance(st, ast.Assign) and len(st.targets) == 1 and isinstance(st.targets[0], ast.Name) and \
+                            "metronome" in st.targets[0].id:
+                        rexpr = st.value
+            break
+    if wexpr is None or rexpr is None:
+        return [R.undec(rid, "measure-length", wfile, wfn.node.lineno, f"measure-length value not found in the {'writer' if wexpr is None else 'reader'}")]
+
+    def wleaf(x):
+        t = unparse(x)
+        return "MET" if t.endswith(".metronome") else ("K" if t == "DEFAULT_METRONOME" else None)
+
+    def rleaf(x):
+        t = unparse(x)
+        return "VAL" if isinstance(x, ast.Name) and t not in ("DEFAULT_METRONOME", "float", "int") else ("K" if t == "DEFAULT_METRONOME" else None)
+    try:
+        w = sym.canon(wexpr, wleaf)
+        r = sym.canon(rexpr, rleaf)
+    except Exception as e:
+        return [R.undec(rid, "measure-length", wfile, wexpr.lineno, f"measure-length arithmetic not modelled: {e}")]
+    if w.same(sym.parse("MET / K")) and r.same(sym.parse("VAL * K")):
+        insts.append(R.ok(rid, "measure-length", wfile, wexpr.lineno, idiom="written metronome / K, read value * K (same K): mutually inverse"))
+    elif w.symbols() <= {"MET", "K"} and r.symbols() <= {"VAL", "K"}:
+        insts.append(R.viol(rid, "measure-length", wfile, wexpr.lineno,
+                            f"channel 02 is written as '{unparse(wexpr)}' and read as '{unparse(rexpr)}': the two are not inverse (a measure of "
+                            f"length 1 is metronome K; a 3/4 measure must be written 0.75) — in 4/4 both give 1, any other metre is written "
+                            f"with the wrong measure length and every later object moves", construct=f"time signature: {unparse(wexpr)} vs {unparse(rexpr)}"))
+    else:
+        insts.append(R.undec(rid, "measure-length", wfile, wexpr.lineno, f"measure-length arithmetic over other quantities: {unparse(wexpr)} / {unparse(rexpr)}"))
+    return insts
+
+
 SPECS = [
     RuleSpec("C05.R1", rule_r1, 3, "A1", "tempo ids: header #BPMxx and channel-08 objects number the same list identically (base 36, 2 chars)"),
     RuleSpec("C05.R2", rule_r2, 1, "A7", "column->channel map is the inversion of the caller's layout"),
@@ -1087,6 +1143,7 @@ SPECS = [
     RuleSpec("C05.R10", rule_r10, 2, "A5", "disjoint value domains: no hit or hold head can be written with the #LNOBJ id that marks the end of a hold"),
     RuleSpec("C05.R11", rule_r11, 4, "A8", "guarded conversions: 'encode unless already bytes' tests, converts and passes through one and the same value"),
     RuleSpec("C05.R6", rule_r6, 6, "A7", "writer timing map from every tempo point; slot = numerator * slots / (denominator * beats-per-measure)"),
+    RuleSpec("C05.R12", rule_r12, 1, "A1", "measure-length channel: written metronome / K, read value * K with the same K"),
     RuleSpec("C05.D", rule_dep, 1, "M0", "rules of the shared code (timing engine, list classes, stacker) that the operations of this property reach"),
 ]
 
